@@ -198,6 +198,9 @@ class Outcome:
         self.cov = {"samples": []}
         self.assumptions = []
         self.violations = []      # (description, replay_path)
+        import glob
+        for f in glob.glob(os.path.join(REPLAYS, f"{prop}-*.json")):
+            os.remove(f)             # replay files of earlier runs of this check are stale
         self.kf_lines = []
         self.notes = []
 
